@@ -83,10 +83,14 @@ func c04Decl(variant int, opts flags.Options) *decl.Decl {
 		{Field: "Eacute", Short: "é", Long: "eacute", Type: decl.TBool},
 		{Field: "Five", Short: "5", Long: "five", Type: decl.TBool},
 		{Field: "BoolChoice", Short: "B", Long: "boolchoice", Type: decl.TBool, Choices: []string{"x"}},
+		{Field: "Refuse", Short: "r", Long: "refuse", Type: decl.TFunc0E},
 	}}
 	cmd := &decl.Cmd{Field: "Cmd", Name: "cmd", Opts: []*decl.Opt{{Field: "Z", Short: "z", Long: "zed", Type: decl.TBool}},
 		Pos: []*decl.PosArg{{Field: "N", Type: decl.TInt}}}
 	top.Cmds = []*decl.Cmd{cmd}
+	if variant == 2 {
+		top.SubOptional = false // a command is required: unknown words reach the unknown-command diagnosis
+	}
 	if variant == 1 {
 		top.Opts = append(top.Opts,
 			&decl.Opt{Field: "Iface", Short: "I", Long: "iface", Type: decl.TIface},
@@ -105,6 +109,7 @@ var c04Tokens = []string{
 	"", "-", "--", "---", "-a", "-s", "-sval", "-s=", "-s=v", "--str", "--str=", `--str="q"`, `--str="`, "-i", "-i5", "-i=x", "-5", "-i-5",
 	"-m", "-mk:1", "-mk", "-mk:x", "-lx", "-c", "-c=1", "-k", "-e13", "-e12", "-Ubad", "-Uok", "-P", "nope", "-Cx", "-Cz", "-O", "-O=1",
 	"-é", "-aé5", "-B", "--boolchoice", "--help", "-h", "--=x", "-=", `-"`, "cmd", "7", "w", "-z", "--all=1", "-a\xff", "\xff", "--unk", "-x",
+	"-r", "--refuse", "-ar", "é1", "añadir", "日本語", "cmdé",
 }
 
 func init() {
@@ -112,7 +117,7 @@ func init() {
 	flagBits := []flags.Options{flags.HelpFlag, flags.PassDoubleDash, flags.IgnoreUnknown, flags.PrintErrors, flags.PassAfterNonOption}
 	body := func(c *explore.Ctx) {
 		part := c.Choose(2)    // 0: one arbitrary byte string as a token; 1: vectors of pathological tokens
-		variant := c.Choose(2) // declaration
+		variant := c.Choose(3) // declaration
 		base := c.Choose(2)    // None | Default
 		var opts flags.Options
 		if base == 1 {
@@ -238,9 +243,9 @@ func init() {
 		Body:       body,
 		Setup:      c04Setup,
 		DevBound:   func(bool) int { return 2 },
-		Rule: "two declarations covering every option kind (flags, scalars, map, slice, three callback signatures, Unmarshaler, ValueValidator, choices on a string and on a bool flag, optional argument, non-ASCII and digit short names, " +
-			"interface-, array-, pointer-to-bool typed fields, a required option, a command with an int positional); option sets: None and Default with up to 2 of the 5 flags toggled (32 sets); inputs: (i) every byte string of length <= 4 (quick) / <= 5 (thorough) " +
-			"over {- = a s x \" \\ 0xC3 0xA9 : 5} as a token alone, after -s, after a command word, after --; (ii) every vector of <= 2 (quick) / <= 3 (thorough) tokens over 54 pathological tokens; oracle: returns normally, error nil or typed as the CLM's fault says, " +
+		Rule: "three declarations covering every option kind (flags, scalars, map, slice, four callback signatures incl. one that always returns an error, Unmarshaler, ValueValidator, choices on a string and on a bool flag, optional argument, non-ASCII and digit short names, " +
+			"interface-, array-, pointer-to-bool typed fields, a required option, a command with an int positional; the third declaration makes the command mandatory so that unknown words reach the unknown-command diagnosis); option sets: None and Default with up to 2 of the 5 flags toggled (32 sets); inputs: (i) every byte string of length <= 4 (quick) / <= 5 (thorough) " +
+			"over {- = a s x \" \\ 0xC3 0xA9 : 5} as a token alone, after -s, after a command word, after --; (ii) every vector of <= 2 (quick) / <= 3 (thorough) tokens over 61 pathological tokens; oracle: returns normally, error nil or typed as the CLM's fault says, " +
 			"stdout/stderr deltas exactly as PrintErrors prescribes; distinct = distinct (declaration, option set, error class, wrote stdout?, wrote stderr?, model fault)",
 		Assumptions:  []string{"os.Stdout / os.Stderr are swapped for files per worker process and offset deltas read per leaf", "declarations reflect.StructOf cannot build (unexported fields in positional structs) are outside the space"},
 		RequiredHits: []string{"print-errors", "help-printed", "foreign-positional-error", "err:unknown flag", "err:expected argument", "err:marshal", "err:no argument for bool", "err:invalid choice", "err:help", "err:required", "err:ok"},
